@@ -4,7 +4,10 @@ THEOREM_FILE = "Properties/C11.v"
 
 RULE = ("random windows (month ends, leap days, far years, inverted, single-day) x 6 intervals x --last in "
         "{0,1,2,3,5,12,100} through date.NewPartition, each with ~20 Align/Contains probes around the window and "
-        "period boundaries; plus Go's AddDate/Weekday/StartOf/EndOf on a stride of calendar days; thorough adds every "
+        "period boundaries; the requested period (--from/--to, with and without --from, inverted) against the journal's period "
+        "in every relative position (nested, overlapping, touching, disjoint on either side) through Period.Clip followed by "
+        "NewPartition, as cmd/flags Multiperiod.Partition combines them (op C11.clip: the clipped window must be the "
+        "intersection and the periods must partition it); plus Go's AddDate/Weekday/StartOf/EndOf on a stride of calendar days; thorough adds every "
         "(s,e) in a 17-month range x 6 intervals x 5 last values and every day of years 0001-9998.  Non-trivial: the "
         "window spans at least one unit boundary (more than one period) or last > 0; distinct by input.")
 
@@ -23,8 +26,10 @@ def plan(tier, seed):
     if tier == "quick":
         return [("C11", seed, 4000, []),
                 ("C11cal", seed, 6000, ["0001-01-01", "601"]),
-                ("C11cal", seed + 1, 3000, ["1999-01-01", "1"])]
+                ("C11cal", seed + 1, 3000, ["1999-01-01", "1"]),
+                ("C11clip", seed, 2000, [])]
     return [("C11", seed, 60000, []),
+            ("C11clip", seed, 100000, []),
             ("C11sweep", seed, 0, ["2019-11-01", "2021-03-31"]),
             ("C11cal", seed, 3651700, ["0001-01-01", "1"])]
 
@@ -61,8 +66,10 @@ def distribution(cases):
 TECHNIQUE = "Coq proof over a hand-written Gallina model of date.go (induction on the NewPartition loop, calendar facts by an era sweep lifted by periodicity) + model/implementation correspondence on generated and swept inputs through extraction"
 LEVEL_TEXT = ("Theorems C11_partition/C11_last/C11_align_all/C11_contains/C11_once/C11_no_fuel_exhaustion (Coq, closed under the "
               "global context) state the property for every window, interval and --last value with no bound on dates; "
-              "C11_model_meets_spec proves that the executable statement evaluated on the Go output holds of the model. "
+              "C11_clip_intersection / C11_clip_empty: the window that is partitioned, the requested period clipped to the journal's, "
+              "contains exactly the dates of both (no date when they do not meet); "
+              "C11_model_meets_spec / C11_clip_meets_spec prove that the executable statements evaluated on the Go output hold of the model. "
               "The model is tied to lib/common/date/date.go and Go's time package by running both on the same inputs on every check.")
 LEVEL_NOTE = ("Trusted: Coq kernel + vm_compute; extraction and the OCaml driver; the Go harness; that Model/Date.v is date.go "
               "(hand-written, validated by the correspondence: quick 4000 windows + 9000 calendar days, thorough 1.6M windows and "
-              "every day of years 1-9998). cmd/flags (cobra flag parsing) is not modelled.")
+              "every day of years 1-9998). Of cmd/flags only Multiperiod.Partition's Clip + NewPartition is modelled; cobra flag parsing is not.")
